@@ -320,14 +320,15 @@ def worker_main(prop_id, tier, seed, shard, nshards, out_path):
             res["violation"] = {"kind": v.kind, "detail": v.detail, "sig": v.sig, "case": case,
                                 "locale_encoding": _loc.getpreferredencoding(False),
                                 "loglevel": os.environ.get("HSVERIF_LOGLEVEL") or "off",
-                                "scratch_style": os.environ.get("HSVERIF_SCRATCH_STYLE") or "plain"}
+                                "scratch_style": os.environ.get("HSVERIF_SCRATCH_STYLE") or "plain",
+                                "optimize": sys.flags.optimize}
     except BaseException as e:  # noqa
         res["error"] = "".join(traceback.format_exception(type(e), e, e.__traceback__))[-4000:]
     res.update(ctx.result())
     res["wall"] = time.time() - t0
     import locale
     res["locale_encoding"] = locale.getpreferredencoding(False) + ("+DEBUG-logging" if os.environ.get("HSVERIF_LOGLEVEL") == "DEBUG" else "") + \
-        ("+mixed-case-paths" if os.environ.get("HSVERIF_SCRATCH_STYLE") == "mixed" else "")
+        ("+mixed-case-paths" if os.environ.get("HSVERIF_SCRATCH_STYLE") == "mixed" else "") + ("+python-O" if sys.flags.optimize else "")
     with open(out_path + ".tmp", "w", encoding="utf-8") as f:
         json.dump(res, f, default=str)
     os.replace(out_path + ".tmp", out_path)
@@ -363,7 +364,7 @@ def write_replay(prop_id, vio):
     os.makedirs(REPLAY_DIR, exist_ok=True)
     body = {"property": prop_id, "kind": vio["kind"], "detail": vio["detail"], "sig": vio["sig"],
             "case": vio["case"], "locale_encoding": vio.get("locale_encoding", "UTF-8"), "loglevel": vio.get("loglevel", "off"),
-            "scratch_style": vio.get("scratch_style", "plain"),
+            "scratch_style": vio.get("scratch_style", "plain"), "optimize": vio.get("optimize", 0),
             "how": f"/venv/bin/python /verif/check.py {prop_id} --replay <this file>"}
     name = f"{prop_id}-{jkey(vio['case'])}.json"
     path = os.path.join(REPLAY_DIR, name)
@@ -490,6 +491,8 @@ def orchestrate(prop_id, tier, seed, nshards=None, budget=None):
             e["HSVERIF_LOGLEVEL"] = "DEBUG"      # (shards 2, 3, 6, 7, ...: the store's DEBUG logging is enabled)
         if sh % 8 >= 4:
             e["HSVERIF_SCRATCH_STYLE"] = "mixed"  # (shards 4-7, 12-15: store paths with upper-case letters, '.', '+')
+        if sh % 16 in (1, 6, 11):
+            e["PYTHONOPTIMIZE"] = "1"             # (three shards: python -O - assert statements of the code under test do not execute)
         procs.append((sh, out, subprocess.Popen(cmd, env=e, cwd=common.VERIF_DIR, start_new_session=True)))
     results, violation, errors = {}, None, []
     pending = dict((sh, (out, p)) for sh, out, p in procs)
@@ -665,6 +668,8 @@ def main(argv=None):
                     upd["HSVERIF_LOGLEVEL"] = "DEBUG"
                 if body.get("scratch_style") == "mixed" and os.environ.get("HSVERIF_SCRATCH_STYLE") != "mixed":
                     upd["HSVERIF_SCRATCH_STYLE"] = "mixed"
+                if body.get("optimize") and not sys.flags.optimize:
+                    upd["PYTHONOPTIMIZE"] = "1"
                 if upd:
                     os.environ.update(upd, HSVERIF_REPLAY_ENV_SET="1")
                     os.execv(sys.executable, [sys.executable] + sys.argv)
